@@ -29,7 +29,8 @@ RULE = ('60% generated allocation trees (depth 1-4, 1-8 nodes, reservations per 
         'E2 histories: priorities/allocations chosen by Loader.find_assignment '
         '/ load_app vs the declared manifests and assignments, and the queue '
         'order by declared priority. distinct = canonical JSON.'
-        " Since round 7: 'first come' is ground truth (the order in which the harness submitted the instances resp. the running master first loaded them), tree cases re-assign instances through Cell.add_app.")
+        " Since round 7: 'first come' is ground truth (the order in which the harness submitted the instances resp. the running master first loaded them), tree cases re-assign instances through Cell.add_app."
+        ' Since round 10 (E2): every instance known to the master is considered exactly once per cycle and in the cycle of the partition its declared allocation belongs to; allocations moved between partitions under their name.')
 ASSUMPTIONS = [
     'demands and reservations are small integers (exact in float64)',
     'the instance whose demand crosses the reservation boundary may be '
